@@ -96,7 +96,7 @@ def check(ctx: Ctx, ev: Evidence) -> list[Finding]:
                 cond = r.get("condition_code_of_acked_pdu")
                 status = r.get("transaction_status")
                 good = (direction == E("Direction", "TOWARDS_SENDER") and status == E("TransactionStatus", m)
-                        and repr(cond) in ("ConditionCode.NO_ERROR", "ConditionCode.$OTHER") and s.heap[pkt.oid].get("condition_code") == cond)
+                        and isinstance(cond, E) and cond.cls == "ConditionCode" and s.heap[pkt.oid].get("condition_code") == cond)
                 ok = ok and good
                 desc.append(f"ACK(EOF) direction={direction!r} status={status!r} condition={cond!r}")
         ev.inst("C20-R3", f"status {m}: {sorted(set(desc))}", "ok" if ok else "violation")
